@@ -50,6 +50,27 @@ pub const ACCESS: [&str; 10] = [
     "method_arg",     // "cab".contains(cs)
 ];
 
+/// the type every CONSTANT of a program has (functions always return i32).
+/// `wrap` turns the i32 initialiser into the type, `un` reads it back; lossy types
+/// (unit, zero-sized registered type, bool) contribute 0 to whoever mentions them, but
+/// their initialiser still has to run exactly once, after what it depends on.
+pub const CTYPES: [&str; 8] = ["i32", "()", "i32?", "Rc", "String", "List[i32]", "Z", "bool"];
+
+/// (type as written, wrapper, un-wrapper, lossy)
+fn ctype_info(t: usize) -> (&'static str, &'static str, &'static str, bool) {
+    match t {
+        0 => ("i32", "", "", false),
+        1 => ("()", "fn wr(x: i32) {}", "fn un(x: ()) -> i32 { 0 }", true),
+        2 => ("i32?", "fn wr(x: i32) -> i32? { Option.Some(x) }", "fn un(x: i32?) -> i32 { match x { Some(v) => v, None => 7777777 } }", false),
+        3 => ("pkg.Rc", "record Rc { u: (), a: i32 }\nfn wr(x: i32) -> Rc { Rc { u: (), a: x } }", "fn un(x: Rc) -> i32 { x.a }", false),
+        4 => ("String", "fn wr(x: i32) -> String { x.to_string() }", "", false),
+        5 => ("List[i32]", "fn wr(x: i32) -> List[i32] { [x] }", "fn un(x: List[i32]) -> i32 { match x.get(0) { Some(v) => v, None => 7777777 } }", false),
+        6 => ("Z", "fn wr(x: i32) -> Z { mkz() }", "fn un(x: Z) -> i32 { eatz(x); 0 }", true),
+        7 => ("bool", "fn wr(x: i32) -> bool { x > 0 }", "fn un(x: bool) -> i32 { if x { 0 } else { 7777777 } }", true),
+        _ => unreachable!(),
+    }
+}
+
 pub fn access_expr(a: usize) -> String {
     let sel = |cond: &str| format!("(if {cond} {{ {CV} }} else {{ {POISON} }})");
     match a {
@@ -103,6 +124,8 @@ pub struct Case {
     pub ctx: Option<(usize, usize)>,
     /// index into ACCESS: how the context read is written (family Ctx)
     pub access: usize,
+    /// index into CTYPES: the type of every constant of the program
+    pub ctype: usize,
 }
 
 #[derive(Clone, Debug, PartialEq)]
@@ -260,6 +283,10 @@ impl Case {
                 v += CV;
             }
         }
+        if !self.is_fn(i) && ctype_info(self.ctype).3 {
+            // a constant of a lossy type: what is read back from it
+            return 0;
+        }
         v
     }
 
@@ -341,14 +368,25 @@ impl Case {
                 let params = if self.with_depth() { "d: i32" } else { "" };
                 format!("fn f{i}({params}) -> i32 {{ {body} }}")
             } else {
-                format!("const C{i}: i32 = {body};")
+                if self.ctype == 0 {
+                    format!("const C{i}: i32 = {body};")
+                } else {
+                    format!("const C{i}: {} = pkg.wr({body});", ctype_info(self.ctype).0)
+                }
             });
         }
         // getters for the constants live in pkg, after everything else
         for i in 0..self.n {
             if !self.is_fn(i) {
                 let abs = if self.in_m(i) { "pkg.m." } else { "pkg." };
-                extra[0].push(format!("fn g{i}() -> i32 {{ {abs}C{i} }}"));
+                extra[0].push(format!("fn g{i}() -> i32 {{ {} }}", self.unwrap(&format!("{abs}C{i}"), i, accept)));
+            }
+        }
+        if self.ctype != 0 {
+            let (_, w, u, _) = ctype_info(self.ctype);
+            extra[0].push(w.to_string());
+            if !u.is_empty() {
+                extra[0].push(u.to_string());
             }
         }
         let mut out = [String::new(), String::new()];
@@ -383,7 +421,7 @@ impl Case {
         let abs = if self.in_m(j) { "pkg.m." } else { "pkg." };
         let name = self.node_name(j);
         let call = |pfx: &str, arg: &str| {
-            if self.is_fn(j) { format!("{pfx}{name}({arg})") } else { format!("{pfx}{name}") }
+            if self.is_fn(j) { format!("{pfx}{name}({arg})") } else { self.unwrap(&format!("{pfx}{name}"), j, accept) }
         };
         // the text the string-valued forms compare with (static in families Dag and Ctx;
         // rejected programs are never evaluated, any text will do)
@@ -419,6 +457,19 @@ impl Case {
                 call(rel, arg)
             ),
             _ => unreachable!(),
+        }
+    }
+
+    /// the i32 read back from an expression that denotes constant `j`
+    fn unwrap(&self, expr: &str, j: usize, accept: bool) -> String {
+        match self.ctype {
+            0 => expr.to_string(),
+            4 => {
+                // String: compare with the text the model predicts (static in family Dag)
+                let lit = if accept && !self.with_depth() { self.val(j, 0) } else { 0 };
+                format!("(if {expr} == \"{lit}\" {{ {lit} }} else {{ {POISON} }})")
+            }
+            _ => format!("pkg.un({expr})"),
         }
     }
 
@@ -460,6 +511,7 @@ pub fn self_test(max_n: usize) -> Result<(), String> {
         back: None,
         ctx: None,
         access: 0,
+        ctype: 0,
     };
     if c.val(0, 0) != 1 + 10 + 100 + 2000 || c.const_deps(0) != vec![3] || c.expect() != Expect::Accept {
         return Err("model self-test (diamond) failed".into());
